@@ -190,3 +190,42 @@ Lemma is_experiment_other_stages f k :
 Proof. destruct k; simpl; intros H; try contradiction; reflexivity. Qed.
 
 End SegSpec.
+
+(* ---- C07: every context is served exactly one of the listed buckets, whatever the weights sum to ---- *)
+Lemma last_opt_some {A} (l : list A) : l <> [] -> exists x, last_opt l = Some x.
+Proof.
+  induction l as [|a l IH]; [congruence|]. intros _. destruct l as [|b l].
+  - exists a. reflexivity.
+  - destruct IH as [x Hx]; [congruence|]. exists x. cbn [last_opt] in *. exact Hx.
+Qed.
+
+Theorem chosen_bucket_exists b wvs : wvs <> [] -> exists wv, chosen_bucket b wvs = Some wv /\ In wv wvs.
+Proof.
+  intro H. unfold chosen_bucket. destruct (scan b f32_zero wvs) as [wv|] eqn:Hs.
+  - exists wv. split; [reflexivity | eapply scan_in; eauto].
+  - destruct (last_opt_some wvs H) as [x Hx]. exists x. split; [exact Hx | apply last_opt_in; exact Hx].
+Qed.
+
+Theorem chosen_bucket_fallback b wvs : scan b f32_zero wvs = None -> chosen_bucket b wvs = last_opt wvs.
+Proof. intro H. unfold chosen_bucket. rewrite H. reflexivity. Qed.
+
+(* what a rollout serves: the variation of the chosen bucket -- for every bucket value the hash produces, for an
+   experiment as for a plain rollout; an empty rollout is the only way not to serve a bucket *)
+Theorem rollout_serves_chosen_bucket o c vr key salt b fl :
+  vr_var vr = None -> ro_vars (vr_rollout vr) <> [] ->
+  compute_bucket (o_secondary o) c (is_experiment_rollout (vr_rollout vr)) (ro_seed (vr_rollout vr)) (ro_ctxkind (vr_rollout vr))
+                 key (ro_bucket_by (vr_rollout vr)) salt = Ok (b, fl) ->
+  exists wv inexp, chosen_bucket b (ro_vars (vr_rollout vr)) = Some wv /\
+                   vr_result o c vr key salt = Done (Ok (wv_var wv, inexp)).
+Proof.
+  intros Hv Hne Hb. destruct (chosen_bucket_exists b _ Hne) as [wv [Hc _]].
+  unfold vr_result. rewrite Hv. destruct (ro_vars (vr_rollout vr)) as [|w0 ws] eqn:Hw; [congruence|].
+  rewrite Hb. unfold chosen_bucket in Hc.
+  destruct (scan b f32_zero (w0 :: ws)) as [wv'|] eqn:Hs.
+  - injection Hc as ->. eexists wv, _. split; [unfold chosen_bucket; rewrite Hs; reflexivity | reflexivity].
+  - rewrite Hc. eexists wv, _. split; [unfold chosen_bucket; rewrite Hs; exact Hc | reflexivity].
+Qed.
+
+Theorem empty_rollout_is_malformed o c vr key salt :
+  vr_var vr = None -> ro_vars (vr_rollout vr) = [] -> vr_result o c vr key salt = Done (Err EEmptyRollout).
+Proof. intros Hv He. unfold vr_result. rewrite Hv, He. reflexivity. Qed.
